@@ -1435,6 +1435,15 @@ func (m *Machine) builtin(b *ssa.Builtin, args []Value, raw []ssa.Value, fr *fra
 		}
 		nl := s.len + len(add)
 		nc := nl
+		if m.hr.rtgrow {
+			// "runtime" growth policy: the capacity runtime.growslice of go1.24 (amd64) gives, so that code whose
+			// behaviour depends on spare capacity (buffered readers) takes the path it takes natively
+			var et types.Type
+			if st, ok := raw[0].Type().Underlying().(*types.Slice); ok {
+				et = st.Elem()
+			}
+			nc = runtimeGrowCap(nl, s.cap, et)
+		}
 		if m.hr.roomy {
 			// "roomy" growth policy: spare capacity after growth, as the runtime usually leaves
 			nc = 2 * s.cap
@@ -1539,4 +1548,70 @@ func (m *Machine) builtin(b *ssa.Builtin, args []Value, raw []ssa.Value, fr *fra
 	}
 	m.end("unsupported", "builtin "+b.Name())
 	return nil
+}
+
+var rtSizeClasses = []int{0, 8, 16, 24, 32, 48, 64, 80, 96, 112, 128, 144, 160, 176, 192, 208, 224, 240, 256, 288, 320, 352, 384, 416, 448, 480, 512, 576, 640, 704, 768, 896, 1024, 1152, 1280, 1408, 1536, 1792, 2048, 2304, 2688, 3072, 3200, 3456, 4096, 4864, 5376, 6144, 6528, 6784, 6912, 8192, 9472, 9728, 10240, 10880, 12288, 13568, 14336, 16384, 18432, 19072, 20480, 21760, 24576, 27264, 28672, 32768}
+
+func typeHasPointers(t types.Type) bool {
+	switch u := t.Underlying().(type) {
+	case *types.Basic:
+		return u.Kind() == types.String || u.Kind() == types.UnsafePointer
+	case *types.Array:
+		return typeHasPointers(u.Elem())
+	case *types.Struct:
+		for i := 0; i < u.NumFields(); i++ {
+			if typeHasPointers(u.Field(i).Type()) {
+				return true
+			}
+		}
+		return false
+	}
+	return true
+}
+
+// runtimeGrowCap mirrors runtime.growslice (nextslicecap + roundupsize) of go1.24 on amd64.
+func runtimeGrowCap(newLen, oldCap int, et types.Type) int {
+	esz := 1
+	noscan := true
+	if et != nil {
+		esz = int(types.SizesFor("gc", "amd64").Sizeof(et))
+		noscan = !typeHasPointers(et)
+	}
+	if esz == 0 {
+		return newLen
+	}
+	newcap := oldCap
+	if dc := newcap + newcap; newLen > dc {
+		newcap = newLen
+	} else if oldCap < 256 {
+		newcap = dc
+	} else {
+		for {
+			newcap += (newcap + 3*256) >> 2
+			if newcap >= newLen {
+				break
+			}
+		}
+	}
+	size := newcap * esz
+	req := size
+	var mem int
+	if req <= 32768-8 {
+		if !noscan && req > 512 {
+			req += 8
+		}
+		mem = -1
+		for _, c := range rtSizeClasses {
+			if c >= req {
+				mem = c - (req - size)
+				break
+			}
+		}
+		if mem < 0 {
+			mem = size
+		}
+	} else {
+		mem = (req + 8191) &^ 8191
+	}
+	return mem / esz
 }
